@@ -75,8 +75,9 @@ def main():
         out.violation(f'{prop}:harness-crash', 'the check itself crashed: ' + tb[-500:], {'traceback': tb}, no_input=True)
 
     # ---- something no longer checks and the quick streams found no failing input: search harder before giving up
-    has_input = any(not v['no_input'] for v in out.violations)
-    alarm = bool(failed_files or broken_tables or bad_h or out.violations)
+    has_input = out.has_unlisted_input()
+    alarm = bool(failed_files or broken_tables or bad_h or any(v['no_input'] for v in out.violations)
+                 or any(not ok for _, ok, _ in out.obligations))
     if alarm and not has_input and a.tier == 'quick' and not os.environ.get('VERIF_NO_ESCALATE'):
         out2 = Outcome(prop, 'thorough', seed + 1)
         ctx2 = dict(ctx, tier='thorough', seed=seed + 1, escalated=True)
@@ -84,7 +85,8 @@ def main():
             mod.run(ctx2, out2)
         except Exception:
             pass
-        found = [v for v in out2.violations if not v['no_input']]
+        listed = {f['signature'] for f in common.load_known().get('findings', []) if f.get('property') == prop}
+        found = [v for v in out2.violations if not v['no_input'] and v['signature'] not in listed]
         out.extra['escalated_search'] = {'tier': 'thorough', 'seed': seed + 1, 'evaluations': out2.evaluations,
                                          'failing_inputs_found': len(found)}
         out.evaluations += out2.evaluations
